@@ -8,14 +8,14 @@ V = os.path.dirname(os.path.dirname(os.path.abspath(__file__)))
 META = {
     "C01": ("other", "CFG path rule on both read loops (every chunk reaches every hasher until EOF, binary mode), format->algorithm table, hex/c4 codec constants and encoder/decoder agreement, single implementation routing, no memoisation on the digest path", "hashlib/xxhash compute the standard algorithms; base-58 arithmetic for all 512-bit values is not decided", "CFG path rule + table agreement + who-may-call", "4 C01"),
     "C02": ("other", "loop coverage of the traversal and of its consumers (nothing but ignored names is dropped, every yielded file sealed, every folder recorded), record-key provenance, -sf scope, is_directory only ever a constant, no symlink-resolved path reaches a record key / history lookup / traversal root", "records vs. concrete trees are not executed; digests per C01/C04", "loop coverage + provenance", "4 C02"),
-    "C03": ("other", "error-signal discipline, exit-code table, exit precedence truth table, sibling agreement of the expected-set pipeline in create/verify/diff, timestamps inert, no truth test on a model object that defines __len__/__bool__, folders never counted as new files against a set that is not ancestor-closed, the logger never interprets an already formatted message as a printf format", "verdicts for concrete trees are not executed; hash collision resistance trusted", "decision table + sibling diff + taint", "4 C03"),
+    "C03": ("other", "error-signal discipline, exit-code table, exit precedence truth table, sibling agreement of the expected-set pipeline in create/verify/diff, timestamps inert, no truth test on a model object that defines __len__/__bool__, folders never counted as new files against a set that is not ancestor-closed, the logger never interprets an already formatted message as a printf format, verify and diff count every file without an original entry as new, the missing-file report is reached on every exit after the traversal, no single-use iterator consumed inside a loop", "verdicts for concrete trees are not executed; hash collision resistance trusted", "decision table + sibling diff + taint", "4 C03"),
     "C04": ("other", "action decision table, first-generation-wins lookup shape, generations kept ascending, gating of new formats, promotion-or-abort before write, one selector for the reference format", "generation sequences are not executed", "decision table + CFG dominance + cross-site agreement", "4 C04"),
     "C05": ("other", "verification loop shape and raise classes on all paths of the loader, verify-before-trust dominance, who-may-call the XML parsers, load-before-write in every command, no enclosing try", "collision resistance of c4; chain files produced by the tool", "CFG path conditions + typestate + who-may-call", "4 C05"),
-    "C06": ("other", "who-may-write, fresh name = latest+1, name format included in the loader's regex, chain rewrite = all old entries in order + one new, hashed after closed", "byte stability at run time not executed", "who-may-call + provenance + regex inclusion + typestate", "4 C06"),
+    "C06": ("other", "who-may-write, fresh name = latest+1, name format accepted by the loader (regex structure parsed, sample names with hostile folder names, the skip filter evaluated on generated names), chain rewrite = all old entries in order + one new, hashed after closed", "byte stability at run time not executed", "who-may-call + provenance + regex inclusion + typestate", "4 C06"),
     "C07": ("other", "argument wiring of the directory-hash context (content vs structure, name binding), sort-then-decode-then-hash, per-format key consistency, children before parents, sibling wiring in create / verify -dh", "numeric equality with an independent evaluation is not decided", "provenance (argument wiring) + CFG order + sibling diff", "4 C07"),
     "C08": ("other", "component-wise exact-key routing, bottom-up commit, reference hashed after the child file is closed, write condition, child root hash copied up in all formats", "exactly-one-history per file on concrete layouts is not executed", "CFG order + typestate + provenance", "4 C08"),
     "C09": ("other", "result-use consistency and the 4-row decision table of the comparison helper against what each caller books as failure, writer-optional fields guarded before dereference, key-domain agreement of per-format lookups, failure bookkeeping reaches the exit decision, the list of formats that all have to fail for exit 12 holds recorded formats only", "that a changed tree yields different directory hashes (C07 + collision resistance)", "result-use consistency + three-valued decision-table evaluation + nullability + key-domain", "4 C09"),
-    "C10": ("other", "writer field table equals reader field table, all variable text goes through the escaping builder, path conversion paired both ways, the reader attaches every container it parsed to the hash list under parser-state tests only (attach table, push/pop pairing), hash dates keep their offset", "lxml escaping/iterparse trusted; values not executed", "emission grammar vs reader decision table + taint", "4 C10"),
+    "C10": ("other", "writer field table equals reader field table, all variable text goes through the escaping builder, path conversion paired both ways, the reader attaches every container it parsed to the hash list under parser-state tests only (attach table, push/pop pairing), hash dates keep their offset, reader conversions are followed through helpers (a fixed strptime layout is lossy), nothing edits the serialised XML line by line on its way to the file", "lxml escaping/iterparse trusted; values not executed", "emission grammar vs reader decision table + taint", "4 C10"),
     "C11": ("other", "language of element sequences the writers can emit is included in the XSD content models (every helper that writes to the document is modelled or the check fails closed; a truth test on a lazy iterator is not a non-emptiness guard); attribute sets; enumerations; multiplicity", "libxml2 is the reference validator; e-mail pattern and lexical dates for all clock values not decided", "emission grammar included in XSD automata", "4 C11"),
     "C12": ("other", "every traversal and missing-file filter gets the spec built from (latest generation, -i, -ii); no ignore option is dropped; accumulation order/de-duplication; propagation at commit; the ignore filter is applied after the rename rewrite on the way to the missing-files report; patterns are matched relative to the sealed root", "pathspec gitwildmatch semantics trusted", "provenance + dead-option + CFG order", "4 C12"),
     "C13": ("other", "sortedness dataflow on every enumeration site, provenance/taint of every ignore-match argument and record key, no string decomposition of absolute paths in decisions, scan of set iterations, no import-time defaults, folder name in manifest file names from the normalised root", "byte identity at run time not executed", "sortedness dataflow + taint", "4 C13"),
